@@ -613,6 +613,10 @@ func run(r *core.Run) {
 	r.Assume("transcript = printed value, stderr, error condition + message + rendered stack trace, step count")
 	r.Assume("oracle 4 (map iteration order) is sampling, not enumeration: the Go runtime's per-iteration random start cannot be owned without patching the runtime; a control (a bare Go map of 12 keys iterated R times must show >= 2 orders) is measured on every run")
 
+	if os.Getenv("C10_ONLY") == "width" { // development switch: part (8) alone
+		runWidth(r)
+		return
+	}
 	base, err := runChild("plain", r.Thorough())
 	if err != nil {
 		r.Violate("c10", "harness:child", nil, "child process runs", err.Error(), "")
@@ -638,6 +642,8 @@ func run(r *core.Run) {
 			r.Violate("c10", "address-in-output:"+t.ID, kase{t, nil, "address"}, "no memory address or Go-syntax dump in program output", m+" in "+trunc(a, 300), "")
 		}
 	}
+	// (8) map width x backing x sink against the reference model (width.go)
+	runWidth(r)
 	// (7) host environment: the same targets in fresh processes started under other time zones, locales and home
 	// directories ("in every process"; the statement's only host-dependent builtins are utc-now, time-elapsed, sleep and
 	// file loading, none of which a target uses)
@@ -896,6 +902,13 @@ func replay(v core.Violation) (bool, string) {
 	k, err := core.CaseOf[kase](v)
 	if err != nil {
 		return false, err.Error()
+	}
+	if k.Kind == "width" {
+		wk, err := core.CaseOf[widthKase](v)
+		if err != nil {
+			return false, err.Error()
+		}
+		return replayWidth(wk)
 	}
 	if k.Kind == "hostenv" && len(k.History) == 1 {
 		a, err1 := runChild("plain", true)
